@@ -117,6 +117,9 @@ var views = []viewSpec{
 	{"similarity: rotate 8 deg, scale 1.2", canvas.Identity.Rotate(8).Scale(1.2, 1.2)},
 	{"non-uniform scale (1.4, 0.8)", canvas.Identity.Scale(1.4, 0.8)},
 	{"reflection x -> 40-x", canvas.Identity.ReflectXAbout(20)},
+	// an image at 0.25 px/mm is then placed with the factors (2.4, 1) resp. (1, -1): one factor is exactly 1
+	{"non-uniform scale (0.6, 0.25)", canvas.Identity.Scale(0.6, 0.25)},
+	{"mirror y -> 24-y and scale 0.25", canvas.Identity.Translate(0, 24).Scale(0.25, -0.25)},
 }
 
 var coordSystems = []canvas.CoordSystem{canvas.CartesianI, canvas.CartesianIV}
@@ -1323,7 +1326,7 @@ func allFamilies(tier string) []fw.Family {
 	if tier != "thorough" {
 		// B: all ordered style pairs on every combination of views, two geometry pairings
 		pairings := [][2]int{{0, 2}, {4, 1}, {1, 3}, {2, 4}, {3, 0}}
-		radB := []int{nS, nS, nV, nV, len(pairings), nC}
+		radB := []int{nS, nS, 4, 4, len(pairings), nC} // (the four basic views; the two later ones are in the depth-1 and image families)
 		progB := func(i int64) program {
 			g := oracle.Digits(i, radB...)
 			pr := pairings[g[4]]
